@@ -263,6 +263,11 @@ OpRetain(tb, t, P) ==
                 sit |-> (IF st.dropped = <<>> THEN "keepall" ELSE IF st.len = 0 THEN "dropall" ELSE "drop")
                         \o (IF st.t2f THEN "+t2f" ELSE "") \o (IF st.tk THEN "+tk" ELSE "")
                         \o (IF st.rf THEN "+rf" ELSE "") \o (IF st.rt THEN "+rt" ELSE "")
+                        \* the element in the last slot is dropped while slot 0 (its cyclic
+                        \* successor) holds a tombstone / an element: must not become FREE
+                        \o (IF tb.data[Cap(tb)].st > 1 /\ El(tb.data[Cap(tb)])[1] \notin P
+                            THEN (IF tb.data[1].st = 1 THEN "+last0tomb" ELSE IF tb.data[1].st > 1 THEN "+last0occ" ELSE "+last0free")
+                            ELSE "")
                         \o (IF ~shrink THEN "" ELSE IF Cap(t2) = 0 THEN "+shrink0"
                             ELSE IF Cap(t2) < Cap(tb) THEN "+shrink" ELSE "+rehash")]
 
